@@ -21,6 +21,11 @@ type FuncResult struct {
 }
 
 // VerifyFunction generates all obligations of one function under contract.
+// KnownWhen: per function (short name) and obligation base name ("post.<label>"), the condition of a
+// recorded known finding (known_findings.txt): the obligation is proved outside the condition and
+// expected to be refutable inside it.
+var KnownWhen = map[string]map[string]*Sx{}
+
 func VerifyFunction(p *Program, spec *Spec, fn *ssa.Function, con *Contract) (res *FuncResult) {
 	pkg := ""
 	if fn.Pkg != nil {
@@ -86,8 +91,19 @@ func VerifyFunction(p *Program, spec *Spec, fn *ssa.Function, con *Contract) (re
 		}
 		for _, e := range con.Ensures {
 			goal := env.term(e.Sx)
+			hyps := append([]string(nil), st.pc...)
+			if kw := KnownWhen[shortName(fn.String())]["post."+e.Label]; kw != nil {
+				// known finding: prove the clause outside its recorded condition; inside it the
+				// clause is expected to be refutable (then KNOWN-FINDING is printed)
+				env0 := *env
+				env0.cur = x.entry
+				when := env0.term(kw)
+				x.oblig(&Obligation{Name: fmt.Sprintf("known.%s#%d", e.Label, nret), Kind: "known", Label: e.Label, Cover: true, Group: "known." + e.Label,
+					Hyps: append(append([]string(nil), st.pc...), when, not(goal)), Goal: "true", Trace: trace, Src: e.Src})
+				hyps = append(hyps, not(when))
+			}
 			x.oblig(&Obligation{Name: fmt.Sprintf("post.%s#%d", e.Label, nret), Kind: "post", Label: e.Label,
-				Hyps: append([]string(nil), st.pc...), Goal: goal, Trace: trace, Src: e.Src})
+				Hyps: hyps, Goal: goal, Trace: trace, Src: e.Src})
 			// vacuity: the antecedent of an implication must be reachable on some return path
 			if e.Sx.Head() == "=>" && len(e.Sx.List) == 3 {
 				ante := env.term(e.Sx.List[1])
